@@ -56,6 +56,23 @@ func (v *Verifier) addSweeps() {
 		v.addEffectSweep("sms_keys_only_under_invariant", v.Prog.smsKeySites)
 		v.coveredPred = nil
 	case "C17":
+		v.sweepDefault = v.defaultSecretsContract
 		v.addEffectSweep("no_uncontracted_sink", v.Prog.sinkSites)
+		v.sweepDefault = nil
+	case "C16":
+		// what a client observes of a login or recovery attempt depends on the handlers
+		// registered for these events: each must be under contract for C16
+		v.coveredPred = func(string) bool { return false }
+		v.addEffectSweep("event_handlers_under_contract", v.eventRegSites(map[string][]string{
+			"Before": {"EventAuth", "EventRecoverStart"},
+			"After":  {"EventAuthFail", "EventRecoverStart"},
+		}))
+		v.coveredPred = nil
+	case "C09", "C10":
+		// "whitelisted" means whitelisted by the integrator: no library function
+		// writes the session whitelist (nobody is exempt)
+		v.coveredPred = func(string) bool { return false }
+		v.addEffectSweep("whitelist_integrator_owned", v.Prog.whitelistWriteSites)
+		v.coveredPred = nil
 	}
 }
